@@ -8,7 +8,13 @@ Three small exact TLA+ specifications (specs/misc), each bound to the real code 
                    u.Mul(u) / u.Div(u) / u.Add(u), typed operands, Copy, SetValue, New with zero
                    entries / nil map).  R1: group laws, map-layer refinement lemma, action
                    properties.  R2: every history up to Depth calls replayed into unit.Unit.
- (further parts are added below as they are built)
+ UnitRegistry.tla  NewDimension / SymbolExists / Dimension.String as a registry machine, and the ordering
+                   of user-defined dimensions in formatted output.
+ ScalarFloat.tla   floats/scalar: float64 as a point of the ULP lattice (64-bit naturals as 21-bit limbs):
+                   EqualWithinULP, Same, NaNWith / NaNPayload, Round / RoundEven on dyadic inputs as exact
+                   rationals, EqualWithinAbs / Rel / AbsOrRel on quarter-integers, ParseWithNA.
+ OrderX.tla        internal/order: ByID, BySliceValues, BySliceIDs, LinesByIDs as "the sorted permutation
+                   under the lexicographic order"; every small input list.
 """
 import json
 import os
@@ -52,18 +58,59 @@ def unit_part(ctx, hb):
     ctx.parallel([(lambda n=n, s=s: one(n, s)) for n, s in jobs], width=4)
 
 
+def registry_part(ctx, hb):
+    depth = 4 if ctx.tier == "thorough" else 3
+    cases = ctx.gen("misc/UnitRegistry.tla", "misc/UnitRegistry.cfg", subst=dict(DEPTH=depth, EMIT="TRUE"),
+                    name="R1+R2 gen unit registry depth %d (invariants NoDup, NoClash)" % depth)
+    ctx.replay(hb, "unitreg", cases, name="R2 replay unit registry")
+
+
+def scalar_part(ctx, hb):
+    wide = "TRUE" if ctx.tier == "thorough" else "FALSE"
+
+    def one(mode):
+        cases = ctx.gen("misc/ScalarFloat.tla", "misc/ScalarFloat.cfg", subst=dict(MODE=mode, WIDE=wide),
+                        name="R1+R2 gen scalar %s (lemmas checked as ASSUMEs)" % mode)
+        ctx.replay(hb, "scalar", cases, name="R2 replay scalar " + mode)
+    ctx.parallel([(lambda m=m: one(m)) for m in ("ulp", "round", "eq", "nan", "parse")], width=4)
+
+
+def order_part(ctx, hb):
+    thorough = ctx.tier == "thorough"
+    jobs = [("values", 1, 3, 3), ("ids", 3, 1, 4), ("lines", 1, 3, 3)]
+    if thorough:
+        jobs = [("values", 2, 3, 3), ("values", 1, 2, 5), ("ids", 4, 1, 5), ("lines", 2, 3, 2), ("lines", 1, 3, 4)]
+
+    def one(mode, mv, ml, mn):
+        cases = ctx.gen("misc/OrderX.tla", "misc/OrderX.cfg", subst=dict(MODE=mode, MAXVAL=mv, MAXLEN=ml, MAXN=mn),
+                        name="R1+R2 gen order %s vals<=%d len<=%d n<=%d" % (mode, mv, ml, mn))
+        ctx.replay(hb, "orderx", cases, name="R2 replay order %s vals<=%d len<=%d n<=%d" % (mode, mv, ml, mn))
+    ctx.parallel([(lambda j=j: one(*j)) for j in jobs], width=4)
+
+
 def run(ctx):
     load_local_known(ctx)
     hb = ctx.build("")
     unit_part(ctx, hb)
+    registry_part(ctx, hb)
+    scalar_part(ctx, hb)
+    order_part(ctx, hb)
     ctx.assumptions += [
         "TLC/SANY and the CommunityModules Json module are trusted",
         "the harness's decoding of spec-emitted integers into float64 / uint64 / Go values and its equality comparisons are trusted",
         "unit: model dimensions 1..3 are bound to LengthDim, MassDim, TimeDim (symbols and their byte order are verified by the harness against the header TLC prints)",
     ]
+    ctx.assumptions += [
+        "unit registry: the model's fresh symbols are bound to per-case unique real symbols (suffix _<n>); the byte order the "
+        "specification assumes is verified on the real strings",
+        "scalar: 64-bit patterns are decoded from four 21-bit limbs; rationals are decoded with math/big (nearest float64)",
+    ]
     return ctx.finish(
         rule="unit: one case = one history of receiver-mutating calls on a register file of real *unit.Unit values, "
-             "all queries compared at its end; non-trivial = at least one call.",
+             "all queries compared at its end (non-trivial = at least one call); registry: one history of NewDimension calls "
+             "(non-trivial = something was registered); scalar: one case = one point of a table (non-trivial = the "
+             "documentation fixes the answer, i.e. not an 'open' infinity comparison); order: one input list "
+             "(non-trivial = not already sorted).",
         exhaustive=True)
 
 
